@@ -89,6 +89,24 @@ def merged_view(ss, snap, world, all_local, T):
     return out
 
 
+def retarget_takes_effect(ctx):
+    """What the per-atom view attributes follows the targets AS WRITTEN: after an accepted target(Q, ch) the channel addresses exactly Q
+    (also when Q is a subset of what it addressed before), and every later pulse slot carries Q."""
+    op = ctx.op
+    if op[0] != "target" or ctx.exc is not None or op[2] not in ctx.post.channels:
+        return []
+    want = tuple(sorted((list(op[1]) if isinstance(op[1], (list, tuple, set)) else [op[1]]), key=str))
+    ch = ctx.post.channels[op[2]]
+    ctx.act["retargets_checked"] += 1
+    pre = ctx.pre.channels.get(op[2])
+    if pre is not None and pre.slots and set(want) < set(pre.slots[-1].targets):
+        ctx.act["retargets_to_a_subset"] += 1
+    got = tuple(sorted(ch.slots[-1].targets, key=str)) if ch.slots else ()
+    if got != want:
+        return [("C06:retarget-did-not-take-effect", f"{op[2]}: target({list(want)}) accepted but the channel still addresses {list(got)}")]
+    return []
+
+
 def render(ctx):
     if ctx.exc is not None or not ctx.post.flags["building"]:
         return []
@@ -207,7 +225,7 @@ def render(ctx):
     return out
 
 
-MONITORS = [render]
+MONITORS = [render, retarget_takes_effect]
 
 XYP = [("declare", "m", "mw_global")]
 XYS = [("slm", ["q0"]), ("declare", "m", "mw_global"), ("declare", "n", "mw_global")]
